@@ -128,6 +128,26 @@ class Beam(_Simu):
 
     useTimoshenko: bool = _params.BoolParameter()
 
+    @property
+    def mesh(self) -> "Mesh":
+        """simulation's mesh (a mesh of beam elements)."""
+        return _Simu.mesh.fget(self)
+
+    @mesh.setter
+    def mesh(self, mesh: "Mesh"):
+        from ..FEM import Mesh
+
+        if isinstance(mesh, Mesh) and not all(
+            isinstance(groupElem, (_Timoshenko, _EulerBernoulli))
+            for groupElem in mesh.Get_list_groupElem(dim=1)
+        ):
+            # a plain line mesh (as the constructor accepts): use beam elements
+            if self.useTimoshenko:
+                mesh = _Construct_Timoshenko_mesh(mesh)
+            else:
+                mesh = _Construct_Euler_Bernoulli_mesh(mesh)
+        _Simu.mesh.fset(self, mesh)
+
     def Results_nodeFields_elementFields(
         self, details=False
     ) -> tuple[list[str], list[str]]:
